@@ -193,10 +193,16 @@ class Inliner:
                 if pn not in defaults:
                     return None
                 bound[pn] = copy.deepcopy(defaults[pn])
-        mapping = {n: pre + n for n in (set(params) | set(g.kwonly) | _locals(g.node)) if n != self_name}
+        assigned = _locals(g.node)
+        mapping = {n: pre + n for n in (set(params) | set(g.kwonly) | assigned) if n != self_name}
         stmts = []
         for pn in params + g.kwonly:  # arguments are evaluated left to right, as at the call
-            a = ast.Assign(targets=[ast.Name(id=mapping[pn], ctx=ast.Store())], value=bound[pn])
+            a_ = bound[pn]
+            if isinstance(a_, ast.Name) and pn not in assigned and a_.id not in assigned:
+                # the argument is a plain variable the helper never rebinds: the parameter *is* that variable
+                mapping[pn] = a_.id
+                continue
+            a = ast.Assign(targets=[ast.Name(id=mapping[pn], ctx=ast.Store())], value=a_)
             stmts.append(ast.copy_location(a, call))
         rn = _Rename(mapping, self_name, self_expr)
         body = [rn.visit(s) for s in body]
@@ -227,6 +233,20 @@ class Inliner:
             ast.fix_missing_locations(s)
         self.sites.append((f.qual, g.qual, mode))
         return out
+
+    def remaining_calls(self, g):
+        """call sites of helper g that were not inlined (anywhere in the program)"""
+        n = 0
+        for f in self.P.funcs.values():
+            if f is g or f.is_template:
+                continue
+            for c in ast.walk(f.node):
+                if isinstance(c, ast.Call):
+                    fn = c.func
+                    if (isinstance(fn, ast.Name) and fn.id == g.name and g.cls is None and f.module is g.module) or \
+                            (isinstance(fn, ast.Attribute) and fn.attr == g.name and g.cls is not None):
+                        n += 1
+        return n
 
     def rewrite_block(self, block, f):
         out = []
@@ -323,4 +343,15 @@ def inline_new_helpers(P, rounds=3):
                 any_change = True
         if not any_change:
             break
+    # a private helper all of whose call sites were inlined is analysed as part of its callers only
+    for q in {h for _f, h, _m in inl.sites}:
+        g = P.funcs[q]
+        if g.name.startswith("_") and not g.name.startswith("__") and inl.remaining_calls(g) == 0:
+            # (removed from the program model: nothing refers to it any more)
+            P.funcs.pop(q, None)
+            if g.cls is not None:
+                g.cls.methods.pop(g.name, None)
+            else:
+                g.module.funcs.pop(g.name, None)
+            P.inlined_away = getattr(P, "inlined_away", []) + [q]
     return inl.sites
